@@ -177,7 +177,17 @@ func (p *Proof) scriptQ(o *Obligation, qfOnly bool) string {
 	asserts = append(asserts, p.specDefs...)
 	asserts = append(asserts, o.Guard)
 	if !o.IsCover {
-		asserts = append(asserts, Not(o.Goal))
+		goal, sks := skolemizeGoal(o.Goal)
+		if len(sks) > 0 && len(sks) <= 4 {
+			var inst []*Term
+			for _, a := range p.assumptions[:o.NAssume] {
+				if hasQuant(a, quantMemo) {
+					inst = append(inst, instantiateAt(a, sks)...)
+				}
+			}
+			asserts = append(asserts, inst...)
+		}
+		asserts = append(asserts, Not(goal))
 	}
 	if !o.IsCover {
 		asserts = append(asserts, strExtensionality(o.Goal)...)
